@@ -24,6 +24,13 @@ class AsmError(Exception):
     pass
 
 
+class AsmLimit(AsmError):
+    """The program is well-formed but larger than this verification assembler is willing to materialise."""
+
+
+MAX_SECTION = 1 << 24
+
+
 _TOK = re.compile(rb"""[ \t]*(?:
     (?P<num>0x[0-9a-fA-F]+|[0-9]+)(?P<w>w)?(?![A-Za-z0-9_]) |
     (?P<chr>'(?:\\x[0-9a-fA-F]{2}|\\[\\'"nrt0]|[^\\'])') |
@@ -340,6 +347,8 @@ def assemble(lines, argv=(), strict_header=False):
             v = _eval(toks, {}, W)
             if v < 0:
                 raise AsmError('negative .zero')
+            if v > MAX_SECTION:
+                raise AsmLimit(f'.zero of {v} bytes')
             return v
         if op == '.ascii':
             if len(toks) != 1 or toks[0][0] != 'str':
